@@ -80,6 +80,12 @@ type StreamFeature struct {
 	Negotiate func(ctx context.Context, session *Session, data interface{}) (mask SessionState, rw io.ReadWriter, err error)
 }
 
+// allowed reports whether all of the features necessary bits and none of its
+// prohibited bits are set in state.
+func (f StreamFeature) allowed(state SessionState) bool {
+	return state&f.Necessary == f.Necessary && state&f.Prohibited == 0
+}
+
 func containsStartTLS(features []StreamFeature) (startTLS StreamFeature, ok bool) {
 	for _, feature := range features {
 		if feature.Name.Space == ns.StartTLS {
@@ -203,11 +209,13 @@ func negotiateFeatures(ctx context.Context, s *Session, first, ws bool, features
 				}
 			}
 
-			// If the feature was not sent, was already negotiated, or is
-			// informational only and not meant to be negotiated: error.
+			// If the feature was not sent, was already negotiated, is
+			// informational only and not meant to be negotiated, or can no longer be
+			// negotiated because a feature negotiated since the list was sent
+			// changed the session state: error.
 			_, negotiated := s.negotiated[start.Name.Space]
 			data, sent = list.cache[start.Name.Space]
-			if !sent || negotiated || data.feature.Negotiate == nil {
+			if !sent || negotiated || data.feature.Negotiate == nil || !data.feature.allowed(s.state) {
 				// TODO: What should we return here?
 				return mask, rw, stream.PolicyViolation
 			}
@@ -242,6 +250,11 @@ func negotiateFeatures(ctx context.Context, s *Session, first, ws bool, features
 					if _, ok := s.negotiated[v.feature.Name.Space]; ok || v.feature.Negotiate == nil {
 						// If this feature has already been negotiated, or is informational
 						// only with no negotiation, skip it.
+						continue
+					}
+					if !v.feature.allowed(s.state) {
+						// A feature negotiated since the list was read changed the session
+						// state and this feature's prerequisites no longer hold, skip it.
 						continue
 					}
 
@@ -334,8 +347,7 @@ func writeStreamFeatures(ctx context.Context, s *Session, ws bool, features []St
 	for _, feature := range features {
 		// Check if all the necessary bits are set and none of the prohibited bits
 		// are set.
-		if (s.state&feature.Necessary) == feature.Necessary &&
-			(s.state&feature.Prohibited) == 0 {
+		if feature.allowed(s.state) {
 			var r bool
 			r, err = feature.List(ctx, s.out.e, xml.StartElement{
 				Name: feature.Name,
@@ -416,9 +428,7 @@ parsefeatures:
 				}
 				sf.req = sf.req || req
 
-				if s.state&feature.Necessary == feature.Necessary &&
-					s.state&feature.Prohibited == 0 {
-
+				if feature.allowed(s.state) {
 					sf.cache[tok.Name.Space] = sfData{
 						req:     req,
 						feature: feature,
